@@ -226,7 +226,11 @@ def impl(case):
     c2 = jsonpath.compile(text)
     out["query_unchanged"] = (str(c) == str0 and Q.canon_ast(Q.dump_query(c)) == dump0 and hash(c) == hash0)
     out["recompiled_equal"] = (c == c2 and hash(c) == hash(c2) and str(c) == str(c2))
-    out["cache"] = cache_layout(c)
+    try:
+        out["cache"] = cache_layout(c)
+    except Exception:  # noqa: BLE001   (the cache tree is internal: after an internal rename it cannot be observed)
+        out["cache"] = None
+        out["unobservable"] = ["cache"]
     out["cached_run_equal"] = out["first"] == out["no_cache"]
     return out
 
